@@ -49,6 +49,7 @@ var soilCat = map[string][]proj.Horizon{
 	"peat5":    {hz("HN", 5, 1, 0, 25)},
 	"peat9":    {hz("HN", 4, 1, 0, 25), hz("SS", 9, 3, 0, 0.3)},
 	"gravel12": {{Tex: "SL2", Lower: 4, BD: 3, Corg: 1, CN: 10, FC: 25, WP: 8, PS: 40}, {Tex: "SS", Lower: 12, BD: 3, Corg: 0.1, CN: 10, FC: 10, WP: 5, PS: 30}},
+	"siltcap12": {hz("UU", 3, 4, 0, 5.5), hz("ULS", 12, 3, 0, 0.5)}, // dense silt rich in carbon: the table's field capacity is capped at the pore volume
 	"sand8":    {hz("SL2", 3, 3, 0, 1.0), hz("SS", 8, 3, 10, 0.2)},
 	"loam7":    {hz("LS3", 3, 2, 0, 1.4), hz("LT3", 7, 4, 0, 0.4)},
 	"peat2":    {hz("HN", 2, 1, 0, 30)},
